@@ -36,6 +36,15 @@ def run(res, tier, seed, replay):
             for i, m in enumerate(fam):
                 got = rowu[i] if i < len(rowu) else "?"
                 if got != "B": res.violation("will_return_boolean on a target from the unchecked macros (empty signature) was not refused with the boolean-gate panic" + (" although the function does not return bool" if not m["returns_bool"] else ""), dict(type=m["rust"], form=key), got)
+    # func! call sites inside GENERIC functions, instantiated for bool, u64, u8, bool, String, u64 / u64, bool, i8, bool in one process
+    gb = O["misc"].get("BOOLGATE_GENERIC", "")
+    for row, tys in zip(gb.split(), (["bool", "u64", "u8", "bool", "String", "u64"], ["u64", "bool", "i8", "bool"])):
+        for k, (c, ty) in enumerate(zip(row, tys)):
+            want = "A" if ty == "bool" else "B"
+            if c != want:
+                res.violation(("will_return_boolean ACCEPTED a function whose return type is not bool" if c == "A" else f"will_return_boolean on a bool function gave {c}") +
+                              f" (func! inside a generic function, instantiation #{k + 1} of the call site: T = {ty}, after {tys[:k]})", dict(type=f"fn() -> {ty}", call_site="generic", earlier_instantiations=tys[:k]), gb)
+    if len(gb.split()) != 2: res.broke("generic call-site rows missing", gb)
     row = O['misc'].get('BOOLGATE', '')
     res.cov["evaluations"] += 6 * len(fam); res.cov["distinct_nontrivial"] += len(distinct)
     # forcing the result of the same function again (same injector: flip it, flip it back; and across lifetimes): every call returns the value forced LAST,
